@@ -71,7 +71,6 @@ theorem ends_nl_all (cfg : RCfg) :
     · split
       · exact NlOrEmpty.nil
       · exact nl_snoc _
-  case case9 => exact nl_append_right _ (by decide)
   case case10 h =>
     rename_i st level cs sx r0 r
     have hh : ((unbreak (renderInlines cfg true [] cs).1).getLast? == some '\\') = true := h
